@@ -13,16 +13,19 @@
   Hypotheses, and why they are there:
   * `KindOk r ds` -- RFC 5545: no BYHOUR / BYMINUTE / BYSECOND when DTSTART is a DATE.  Without it the fillers
     write instants with hour ALL_DAY and a minute (`needs_kindOk`).
-  * `ShiftOk r` -- echse's SHIFT extension is absent or moves by at most 365 calendar days.  A far SHIFT writes dates
-    that do not exist (`needs_shiftOk`: SHIFT=-672 yields 2021-02-29).  Business-day SHIFTs (`nB`) are NOT covered:
-    open (they would need C17's `shift_bdays_one_partial`, which is stated against the Gregorian calendar for
-    1902..2098 only, redone in echse's own every-fourth-year calendar as RrAsm3/4 do for the day part).
-  Both are needed for the fillers' contract `FillOk` (its `wf` part), on which the stream proof leans because what
-  a filler writes last is the seed of the next filler call; whether `StreamOk` itself (order and bounds only) can
-  fail without them is not settled.
-  Proofs: Echse/Lemmas/RrAsm1..8 (assembly), RrStrmOk (stream invariant), Rr{Yly,Mly,Wly,Dly,Hly,Mnly,Sly}Ok.
+  * `ShiftOk r` -- echse's SHIFT extension is absent, or moves by at most 365 calendar days (`SHIFT=n`), or by at
+    most 250 business days (`SHIFT=nB`, `nB+`, `nB-`, `-nB`, …), so that a date stays within the neighbouring year.
+    A far SHIFT writes dates that do not exist (`needs_shiftOk`: SHIFT=-672 yields 2021-02-29).  NOT covered: a
+    SHIFT with both parts (`SHIFT=n,mB`) -- open.  (The SHIFT lemmas used here, RrAsm3/4/9, are about echse's own
+    every-fourth-year calendar and hold for all years; C17's are against the Gregorian calendar, 1902..2098.)
+  Both are needed for "every occurrence is a sane instant" (`stream_sane`; `needs_kindOk_stream`,
+  `needs_shiftOk_stream`), i.e. for the `wf` part of the fillers' contract `FillOk`, on which the stream proof leans
+  because what a filler writes last is the seed of the next filler call; whether order and bounds alone (`StreamOk`)
+  can fail without them is not settled.
+  Proofs: Echse/Lemmas/RrAsm1..12 (assembly), RrStrmOk (stream invariant), Rr{Yly,Mly,Wly,Dly,Hly,Mnly,Sly}Ok.
 -/
 import Echse.Lemmas.RrAsm8
+import Echse.Props.C17
 namespace C16
 open Echse.Rrule Echse.Instant Echse.Spec.RrOk
 open Echse.Lemmas.RrStrmOk Echse.Lemmas.RrAsm
@@ -31,10 +34,20 @@ open Echse.Lemmas.RrStrmOk Echse.Lemmas.RrAsm
 
 theorem kindOk_def (r : Rule) (ds : Inst) : KindOk r ds ↔ (ds.H = allDay → r.H = [] ∧ r.M = [] ∧ r.S = []) := Iff.rfl
 theorem shiftOk_def (r : Rule) :
-    ShiftOk r ↔ (r.shift = 0 ∨ ∃ n : Int, r.shift = n * 65536 ∧ -365 ≤ n ∧ n ≤ 365) := Iff.rfl
+    ShiftOk r ↔ (r.shift = 0 ∨ (∃ n : Int, r.shift = n * 65536 ∧ -365 ≤ n ∧ n ≤ 365) ∨
+      (0 < r.shift ∧ r.shift < 65536 ∧ r.shift / 4 ≤ 250)) := Iff.rfl
 /-- `n * 65536` is what the parser makes of `SHIFT=n` (C17 `snarf_days`) -/
 theorem shiftOk_text (r : Rule) (n : Int) (hn : -365 ≤ n ∧ n ≤ 365) (h : r.shift = snarfShift (toString n)) : ShiftOk r :=
-  Or.inr ⟨n, by rw [h, Echse.RuleExt.snarf_days n (by omega)], hn⟩
+  Or.inr (Or.inl ⟨n, by rw [h, Echse.RuleExt.snarf_days n (by omega)], hn⟩)
+/-- `mkShift 0 count back keep` is what the parser makes of `SHIFT=countB` (`back`: `-countB`, `keep`: the `B+` / `B-`
+forms; C17 `snarf_bdays`, `snarf_bdays_keep_fwd`, …) -/
+theorem shiftOk_bdays (r : Rule) (count : Nat) (back keep : Bool) (hc : 1 ≤ count ∧ count ≤ 250)
+    (h : r.shift = C17.mkShift 0 count back keep) : ShiftOk r := by
+  refine Or.inr (Or.inr ?_)
+  rw [h]
+  unfold BdayOnly C17.mkShift
+  have hc0 : ¬ count = 0 := by omega
+  cases back <;> cases keep <;> simp [hc0] <;> omega
 
 /-! ### one filler call -/
 
@@ -44,6 +57,12 @@ theorem fill_ok (r : Rule) (p : Inst) (n : Nat) (l : List Inst) (hr : WfRule r) 
     (hk : KindOk r p) (hs : ShiftOk r) (hn : n ≤ 64) (h : fill r p n = some l) : FillOk r p n l :=
   fill_contract r p n l hr hp hk hs hn h
 
+/-- … and what it writes has the kind of its seed (an all-day instant only from an all-day seed; the sub-daily fillers
+never write one), so `KindOk` goes on to the seed of the next refill -/
+theorem fill_hands_on_kind (r : Rule) (p : Inst) (n : Nat) (l : List Inst) (hr : WfRule r) (hp : WfInst p)
+    (hk : KindOk r p) (h : fill r p n = some l) : ∀ x ∈ l, KindOk r x :=
+  fill_kind_all r p n l hr hp hk h
+
 /-! ### the stream -/
 
 /-- every prefix of every stream is strictly ascending, not before DTSTART, not after UNTIL, at most COUNT long -/
@@ -51,6 +70,12 @@ theorem stream_ordered_bounded (r : Rule) (ds : Inst) (hr : WfRule r) (hd : WfIn
     (hs : ShiftOk r) (n : Nat) (l : List Inst) (ended : Bool) (h : pops n (mkStrm r ds) = some (l, ended)) :
     StreamOk r ds l :=
   pops_ok_of strm_contract r ds hr hd (strmK_start r ds hk hs) n l ended h
+
+/-- every occurrence handed out is a sane instant: a real date 1601..2100, all-day or with a proper time of day -/
+theorem stream_sane (r : Rule) (ds : Inst) (hr : WfRule r) (hd : WfInst ds) (hk : KindOk r ds)
+    (hs : ShiftOk r) (n : Nat) (l : List Inst) (ended : Bool) (h : pops n (mkStrm r ds) = some (l, ended)) :
+    ∀ x ∈ l, WfInst x :=
+  pops_wf_of strm_contract r ds hr hd (strmK_start r ds hk hs) n l ended h
 
 /-- COUNT reached means end of stream: once COUNT occurrences are out, the next pop yields nothing -/
 theorem stream_ends_after_count (r : Rule) (ds : Inst) (hr : WfRule r) (hd : WfInst ds) (hk : KindOk r ds)
@@ -80,6 +105,12 @@ theorem needs_kindOk : WfRule kR ∧ WfInst kD ∧ ShiftOk kR ∧ ¬ KindOk kR k
   · have := (h.wf _ List.mem_cons_self).time
     revert this; decide
 
+/-- … and the stream hands it out: `stream_sane` fails without `KindOk` -/
+theorem needs_kindOk_stream : ∃ l e, pops 1 (mkStrm kR kD) = some (l, e) ∧ ¬ ∀ x ∈ l, WfInst x := by
+  refine ⟨[{ kD with M := 30 }], false, by decide +kernel, fun h => ?_⟩
+  have := (h _ List.mem_cons_self).time
+  revert this; decide
+
 /-- FREQ=YEARLY;BYMONTH=1;BYMONTHDAY=1;SHIFT=-672 from 2021-01-01: everything holds but `ShiftOk`, and the filler
 writes 2021-02-29 (2022-01-01 less 672 days is 2020-02-29, filed under "the year before 2022") -/
 def sR : Rule := { freq := 1, shift := -672 * 65536, mon := [1], dom := [1] }
@@ -91,12 +122,19 @@ theorem needs_shiftOk : WfRule sR ∧ WfInst sD ∧ KindOk sR sD ∧ ¬ ShiftOk 
     ∃ l, fill sR sD 1 = some l ∧ ¬ FillOk sR sD 1 l := by
   refine ⟨sR_wf, sD_wf, KindOk.of_plain _ _ rfl rfl rfl, fun h => ?_, [{ sD with m := 2, d := 29 }],
     by decide +kernel, fun h => ?_⟩
-  · rcases h with h | ⟨n, h, h1, h2⟩
+  · have e : sR.shift = -672 * 65536 := rfl
+    rcases h with h | ⟨n, h, h1, h2⟩ | ⟨h, _⟩
     · revert h; decide
-    · have : sR.shift = -672 * 65536 := rfl
-      omega
+    · omega
+    · omega
   · have := (h.wf _ List.mem_cons_self).day
     revert this; decide
+
+/-- … and the stream hands it out: `stream_sane` fails without `ShiftOk` -/
+theorem needs_shiftOk_stream : ∃ l e, pops 1 (mkStrm sR sD) = some (l, e) ∧ ¬ ∀ x ∈ l, WfInst x := by
+  refine ⟨[{ sD with m := 2, d := 29 }], false, by decide +kernel, fun h => ?_⟩
+  have := (h _ List.mem_cons_self).day
+  revert this; decide
 
 /-- the proviso of the yearly / monthly filler theorems fails for that SHIFT … -/
 theorem far_shift_loses_dates : ¬ Echse.Lemmas.RrCandOk.ShiftKeepsDates (-672 * 65536) :=
@@ -143,6 +181,20 @@ theorem yR_pops : pops 4 (mkStrm yR yD) =
   decide +kernel
 
 example : StreamOk yR yD [{ yD with m := 12, d := 31 }, { yD with y := 2021, m := 12, d := 31 }, { yD with y := 2022, m := 12, d := 31 }] :=
-  stream_ordered_bounded yR yD yR_wf yD_wf (KindOk.of_plain _ _ rfl rfl rfl) (Or.inr ⟨-1, rfl, by decide, by decide⟩) 4 _ true yR_pops
+  stream_ordered_bounded yR yD yR_wf yD_wf (KindOk.of_plain _ _ rfl rfl rfl) (Or.inr (Or.inl ⟨-1, rfl, by decide, by decide⟩)) 4 _ true yR_pops
+
+/-- FREQ=MONTHLY;BYMONTHDAY=1;SHIFT=-1B;COUNT=3 from 2020-01-01T17:00:00: the last business day of each month
+(`5 = 1 * 4 + 1`: one business day, backward) -/
+def bR : Rule := { freq := 2, count := 3, shift := 5, dom := [1] }
+def bD : Inst := { y := 2020, m := 1, d := 1, H := 17, M := 0, S := 0, ms := allSec }
+theorem bR_wf : WfRule bR := by constructor <;> simp [bR, Asc]
+theorem bD_wf : WfInst bD := by constructor <;> decide
+theorem bR_pops : pops 3 (mkStrm bR bD) =
+    some ([{ bD with d := 31 }, { bD with m := 2, d := 28 }, { bD with m := 3, d := 31 }], false) := by
+  decide +kernel
+
+example : StreamOk bR bD [{ bD with d := 31 }, { bD with m := 2, d := 28 }, { bD with m := 3, d := 31 }] :=
+  stream_ordered_bounded bR bD bR_wf bD_wf (KindOk.of_timed _ _ (by decide))
+    (shiftOk_bdays bR 1 true false (by decide) rfl) 3 _ false bR_pops
 
 end C16
